@@ -622,6 +622,70 @@ def allowed_ranges(report, label, spans, src, primary=True):
 
 
 # ----------------------------------------------------------------------------
+# provenance clause: the metas of the IR are metas of the (desugared) AST, SSA invents none
+# ----------------------------------------------------------------------------
+
+# IR node kind -> the kinds of AST node one of which must carry exactly the same (start, end, file id)
+IR_FROM_AST = {
+    "e:Access": {"e:Variable"}, "e:Variable": {"e:Variable"}, "e:Call": {"e:Call"}, "e:InfixOp": {"e:InfixOp"},
+    "e:PrefixOp": {"e:PrefixOp"}, "e:Number": {"e:Number"}, "e:SwitchOp": {"e:InlineSwitchOp"},
+    "e:InlineArray": {"e:ArrayInLine"},
+    "e:Update": {"s:Substitution"},                     # `a[i] = e` lifts to `a = update(a, i, e)` with the statement's meta
+    "s:Assert": {"s:Assert"}, "s:ConstraintEquality": {"s:ConstraintEquality"}, "s:Declaration": {"s:Declaration"},
+    "s:IfThenElse": {"s:IfThenElse", "s:While"},        # a loop header is an IfThenElse with the meta of the `while`
+    "s:LogCall": {"s:LogCall"}, "s:Return": {"s:Return"}, "s:Substitution": {"s:Substitution"},
+}
+DEFAULT_NODES = {(0, 0, None, "s:Substitution"), (0, 0, None, "e:Phi")}      # Meta::default() of an inserted phi
+
+
+def judge_provenance(p, out, stats):
+    """Hypotheses of C04_labels_wellformed_through_desugaring_and_ssa observed on the real code, node by node:
+    (lifting) every node of the CFG built by into_cfg carries the (start, end, file id) of a node of the
+    definition body of the corresponding kind; (SSA, proved for the mirror) every node of the SSA form is a node of
+    that CFG with the same kind, or an inserted phi with Meta::default(); no node of the CFG loses its location."""
+    fails = []
+    for d in out.get("defs") or []:
+        stats["prov_definitions"] += 1
+        ast = collections.defaultdict(set)
+        for s, e, f, k in d["ast"]:
+            ast[(s, e, f)].add(k)
+        if d["pre"] is None:
+            stats["prov_definitions_not_lifted"] += 1
+            continue
+        pre = set()
+        for s, e, f, k in d["pre"]:
+            pre.add((s, e, f, k))
+            stats["prov_ir_nodes"] += 1
+            have = ast.get((s, e, f))
+            if not have or not (IR_FROM_AST.get(k, set()) & have):
+                fails.append({"clause": "provenance", "definition": d["name"], "ir_node": [s, e, f, k],
+                              "ast_nodes_with_that_range": sorted(have or []),
+                              "why": "the %s node of the CFG of `%s` has location %d..%d (file %s), which is not the location of "
+                                     "a %s of the definition body" % (k[2:], d["name"], s, e, f, " / ".join(sorted(x[2:] for x in IR_FROM_AST.get(k, {"?"}))))})
+                break
+        if d["ssa"] is None:
+            stats["prov_definitions_without_ssa"] += 1
+            continue
+        ssa = set()
+        for s, e, f, k in d["ssa"]:
+            ssa.add((s, e, f, k))
+            stats["prov_ssa_nodes"] += 1
+            if (s, e, f, k) in DEFAULT_NODES:
+                stats["prov_default_meta_nodes"] += 1
+            elif (s, e, f, k) not in pre:
+                fails.append({"clause": "provenance", "definition": d["name"], "ssa_node": [s, e, f, k],
+                              "why": "SSA gave a %s node of `%s` the location %d..%d (file %s), which no %s node of the CFG "
+                                     "before SSA has and which is not Meta::default()" % (k[2:], d["name"], s, e, f, k[2:])})
+                break
+        lost = pre - ssa
+        if lost:
+            s, e, f, k = sorted(lost, key=str)[0]
+            fails.append({"clause": "provenance", "definition": d["name"], "lost_node": [s, e, f, k],
+                          "why": "the %s node %d..%d of `%s` has no counterpart with that location after SSA" % (k[2:], s, e, d["name"])})
+    return fails
+
+
+# ----------------------------------------------------------------------------
 # running one batch of projects
 # ----------------------------------------------------------------------------
 
@@ -927,14 +991,22 @@ def evaluate(projects, harness, cli, root, stats, nontrivial):
                                  "libs": [os.path.join(p["dir"], a) for a in p.get("libs", [])],
                                  "curve": p.get("curve", "BN254"), "all": True}))
     outs = common.run_lines(harness, [], lines, shards=common.NPROC)
+    provs = common.run_lines(harness, ["provenance"], lines, shards=common.NPROC)
+    if len(provs) != len(lines):
+        provs = ["{}"] * len(lines)
+        stats["prov_harness_failures"] += 1
     with concurrent.futures.ThreadPoolExecutor(max_workers=common.NPROC) as ex:
         clis = list(ex.map(lambda p: run_cli_project(cli, p), projects))
     failing = []
-    for p, o, c in zip(projects, outs, clis):
+    for p, o, c, pv in zip(projects, outs, clis, provs):
         try:
             out = json.loads(o)
         except ValueError:
             out = {"bad_input": o[:200]}
+        try:
+            prov = json.loads(pv)
+        except ValueError:
+            prov = {"bad_input": pv[:200]}
         stats["projects"] += 1
         stats["style:" + p.get("style", "raw")] += 1
         if p.get("inject"):
@@ -951,6 +1023,10 @@ def evaluate(projects, harness, cli, root, stats, nontrivial):
             stats["panics_in_process"] += 1
         fails, exp_stdout, exp_sarif = judge_project(p, out, stats, nontrivial)
         cf = judge_cli(p, c, exp_stdout, exp_sarif, out["panic"], stats)
+        if "bad_input" in prov or "defs" not in prov:
+            fails.append({"clause": "harness", "why": "provenance mode: %s" % str(prov)[:200]})
+        else:
+            fails += judge_provenance(p, prov, stats)
         stats["cli_findings_displayed"] += len([ev for ev in e2e.parse_stdout(c["stdout"]) if ev[0] == "diag"])
         if c["sarif"] and "results" in c["sarif"]:
             stats["sarif_results"] += len(c["sarif"]["results"])
@@ -1098,6 +1174,15 @@ def run(ctx, proofs):
                        "rejects U+FEFF and U+200B with `Invalid token found.` at their first byte and skips the Unicode White_Space ones",
         "panics_in_process": stats["panics_in_process"],
         "failing_projects": len(failing),
+        "provenance_clause": {
+            "definitions": stats["prov_definitions"], "not_lifted": stats["prov_definitions_not_lifted"],
+            "lifted_but_ssa_error": stats["prov_definitions_without_ssa"],
+            "distinct_ir_nodes_before_ssa_checked_against_ast": stats["prov_ir_nodes"],
+            "distinct_ir_nodes_after_ssa_checked": stats["prov_ssa_nodes"],
+            "default_meta_nodes_after_ssa": stats["prov_default_meta_nodes"],
+            "note": "per definition, in process: every (start, end, file id, kind) of the CFG built by into_cfg is that of an AST "
+                    "node of the corresponding kind of the body handed on by parse_files (statements AND expressions); every node "
+                    "after into_ssa is a node of that CFG or an inserted phi with Meta::default(); no node loses its location"},
         "codespan_model_vs_real": {
             "cases": stats["codespan_cases"], "distinct_texts": stats["codespan_texts"],
             "exhaustive_small_texts": stats["codespan_exhaustive_small_texts"],
